@@ -154,9 +154,11 @@ class Feature:
                 val = child_options.get(DefaultOptionKeys.in_features)
 
                 if isinstance(val, frozenset):
-                    for v in val:
-                        if isinstance(v, Feature):
-                            child_options.group[DefaultOptionKeys.in_features] = v.name.name
+                    # Use all feature names in a fixed order: equal frozensets must give equal hashes whatever
+                    # order they are iterated in.
+                    feature_names = sorted(v.name.name for v in val if isinstance(v, Feature))
+                    if feature_names:
+                        child_options.group[DefaultOptionKeys.in_features] = tuple(feature_names)
 
                 if isinstance(val, Feature):
                     child_options.group[DefaultOptionKeys.in_features] = val.name.name
